@@ -382,15 +382,18 @@ void encode_imm(struct instr *instrc) {
                         : (opd0_mode == reg32 || opd0_mode == ext32)) &&
       IN_RANGE(instrc->cons, NEG32BIT_CHECK, MAX_UNSIGNED_32BIT))
     instrc->reduced_imm = true;
+  // a 'word' memory destination takes a 16-bit immediate like a 16-bit
+  // register (its base register says nothing about the operand size)
+  if (instrc->mem_disp && instrc->keyword.is_word)
+    opd0_mode = reg16;
   // mask all bits except for the most significant byte
-  if ((instrc->opd[0].reg & MODE_MASK) < reg32) {
+  if (opd0_mode < reg32) {
     DO_NOT_PAD(instrc->cons, instrc->reduced_imm, MAX_UNSIGNED_16BIT);
-    if (((instrc->opd[0].reg & MODE_MASK) == reg16 ||
-         (instrc->opd[0].reg & MODE_MASK) == ext16) &&
+    if ((opd0_mode == reg16 || opd0_mode == ext16) &&
         instrc->cons <= MAX_UNSIGNED_8BIT)
       instrc->reduced_imm = false;
   }
-  if ((instrc->opd[0].reg & MODE_MASK) < reg16) {
+  if (opd0_mode < reg16) {
     DO_NOT_PAD(instrc->cons, instrc->reduced_imm, MAX_UNSIGNED_8BIT);
   }
 }
